@@ -101,6 +101,8 @@ type Control struct {
 	Old    string
 	New    string
 	Nth    int    // which occurrence of Old (0 = first)
+	Old2   string // optional second replacement in the same file (e.g. an import)
+	New2   string
 	Rule   string // rule expected to fire
 	Substr string // substring expected in the violated construct (may be empty)
 }
@@ -135,11 +137,12 @@ type Ctx struct {
 	Roots []*packages.Package
 	All   map[string]*packages.Package
 
-	prog    *ssa.Program
-	ssaPkgs []*ssa.Package
-	cg      *callgraph.Graph
-	chaCG   *callgraph.Graph
-	allFns  map[*ssa.Function]bool
+	prog        *ssa.Program
+	ssaPkgs     []*ssa.Package
+	cg          *callgraph.Graph
+	chaCG       *callgraph.Graph
+	allFns      map[*ssa.Function]bool
+	sharedAlias *Alias
 
 	Obligations []*Obligation
 	Counters    map[string]int
@@ -554,4 +557,9 @@ func ConstVal(info *types.Info, e ast.Expr) (int64, bool) {
 		return 0, false
 	}
 	return constInt(tv)
+}
+
+// ConstOf returns the integer value of a constant object.
+func ConstOf(k *types.Const) (int64, bool) {
+	return constInt(types.TypeAndValue{Value: k.Val()})
 }
